@@ -136,7 +136,7 @@ def ramanFiberH (j : Json) : R Json := do
 def interpH (j : Json) : R Json := do
   let xs ← fList getF j "x"
   let tab ← fList C03.getPair j "table"
-  return jObj [("interp", jList jF (xs.map (fun x => Gnpy.Interp.interp x tab))),
+  return jObj [("interp", jList jF (xs.map (fun x => Gnpy.Interp.interp x (Gnpy.Interp.sortKnots tab)))),
                ("interp1d", jList (jOpt jF) (xs.map (fun x => Gnpy.Interp.interp1d x tab)))]
 
 def handlers : List (String × Handler) :=
